@@ -149,7 +149,7 @@ def is_known_lz4(r):
 
 
 def frame_prelude(run, prop, broken):
-    fails = vlib.standard_prelude(run, "constants,flags", "frame")
+    fails = vlib.standard_prelude(run, "constants,flags,bodyplan", "frame")
     for k in ("forbidden", "go2coq", "harness"):
         if k in fails:
             broken.append("%s: %s" % (k, str(fails[k])[-500:]))
